@@ -9,8 +9,12 @@ def sized_list(elem, lo, hi):
 
 
 def weighted(*pairs):
-  """one_of with integer weights: weighted((3, a), (1, b))."""
-  out = []
-  for w, s in pairs:
-    out.extend([s] * w)
-  return st.one_of(*out)
+  """Choice with integer weights: weighted((3, a), (1, b)) draws from a three times as often as from b.
+
+  st.one_of(a, a, a, b) does NOT do that: Hypothesis drops repeated branches, so every distinct branch is equally
+  likely.  The branch index is drawn from a list with multiplicities instead."""
+  strategies = [s for w, s in pairs]
+  idx = []
+  for i, (w, s) in enumerate(pairs):
+    idx.extend([i] * int(w))
+  return st.sampled_from(idx).flatmap(lambda i: strategies[i])
